@@ -484,9 +484,17 @@ fn string_number(vm: &mut Vm) -> Result<VCell, Error> {
     let argc = pop_argc(vm, 1, Some(2), "string->number")?;
 
     let radix = match argc {
-        2 => pop_usize(vm)? as u32,
-        _ => 10_u32,
+        2 => pop_usize(vm)?,
+        _ => 10,
     };
+    // the integer parsers panic on a radix outside 2..=36
+    if !(2..=36).contains(&radix) {
+        return Err(InvalidSyntax(format!(
+            "string->number: radix {} is not between 2 and 36",
+            radix
+        )));
+    }
+    let radix = radix as u32;
     let s = pop_string(vm, "string->number")?;
     let s = s.borrow();
     let s = s.as_str();
